@@ -13,9 +13,13 @@ Reading guide.
 * Observation of an engine iterator = what `Driver.lean` (`fmtIter`) prints: the cell
   `it.items[it.cur]?` — `Valid` iff it exists, its key, and the value read through its position
   *in the current database state* (`Iter.obs` gives the position, `IterP.see s it` the value).
-* `Inv s db g` is the engine invariant (`Proofs/EngineDefs.lean`) of an open handle `db` in state
-  `s`; it holds after `Open` and is kept by every operation (C01/C02/C05/C06).  It is only needed at
-  the moment the iterator is **created** — the later history may leave a batch open, etc.
+* `SnapOK s db g` (`Proofs/IterStable.lean`) is what must hold when the snapshot is **taken**: the
+  data files of the open handle `db` match a ghost directory `g` (`Files`), every index entry is
+  the position of a logged record with that key (`Prov`), the index is sorted.  It follows from the
+  engine invariant `Inv s db g` (`SnapOK.of_inv`; `Inv` holds after `Open` and after every
+  operation outside a batch, C01/C02/C05/C06) and from the in-batch invariant (`SnapOK.of_batch`:
+  a batch is open, possibly with flushed, uncommitted records).  Nothing is assumed about the
+  later states.
 * `HOp` / `hrun` (`Proofs/IterStableMerge.lean`): a history of plain operations
   (`Put/Delete/Get/Sync`), batch operations (`NewBatch/Put/Delete/Get/Commit`, dropping the batch)
   `Merge` runs (argument: the order in which Go's map iteration visits the older files) and
@@ -36,6 +40,7 @@ from `Frame.readAt_member` / `C11_readAt`).
 namespace XixiKV.C10E
 open XixiKV.Frame XixiKV.Index XixiKV.ShardIter XixiKV.Engine XixiKV.Engine.IterP
 open XixiKV.Engine.PolicyP.Size (AOp)
+open XixiKV.Engine.BatchP (bnew_specX bput_specX fresh_of_unused)
 
 /-! ## 1. the engine's cursor is the abstract cursor, hence the sharded iterator -/
 
@@ -73,27 +78,33 @@ theorem C10_engine_listkeys (s : St) (db : DB) (hsorted : SortedKeys db.index)
 
 /-- **C10_engine_complete**.  The snapshot every iterator / `ListKeys` / `Fold` works on
     (`db.index`) is strictly ascending (each key once) and holds exactly the keys that have a value. -/
-theorem C10_engine_complete (s : St) (db : DB) (g : GDir) (hinv : Inv s db g) :
+theorem C10_engine_complete (s : St) (db : DB) (g : GDir) (hinv : SnapOK s db g) :
     (listKeys db).Pairwise (fun a b => keyLt a b = true) ∧
     (∀ k, k ∈ listKeys db ↔ (absGet s db k).isSome = true) ∧
     (∀ pre rev x, x ∈ (iterNew db pre rev).items ↔ x ∈ db.index) ∧
     fold s db = db.index.map (fun x => (x.1, valueAt s db x.2)) := by
   refine ⟨Index.sorted_keys hinv.sorted, fun k => ?_, fun pre rev x => ?_, rfl⟩
-  · rw [absGet_isSome hinv k]
-    exact Index.get_isSome_iff_mem_keys.symm
+  · show k ∈ Index.keys db.index ↔ _
+    rw [← Index.get_isSome_iff_mem_keys]
+    cases hg : Index.get db.index k with
+    | none => rw [absGet_of_get_none hg]; exact Iff.rfl
+    | some p =>
+      obtain ⟨r, _, _, _, ha⟩ := hinv.resolves (Index.get_eq_some_mem hg)
+      rw [ha]
+      exact ⟨fun _ => rfl, fun _ => rfl⟩
   · have : (iterNew db pre rev).items = iterOrder rev db.index := (CSim.new db pre rev).items
     rw [this]
     exact mem_iterOrder
 
 /-! ## 2. the snapshot is stable under later writes -/
 
-/-- **C10_stable**.  Let `Inv s db g` hold when the snapshot is taken (`iterNew db pre rev`,
+/-- **C10_stable**.  Let `SnapOK s db g` (e.g. `Inv s db g`) hold when the snapshot is taken (`iterNew db pre rev`,
     `listKeys db`, `fold s db` all work on the items `(k, p)` of `db.index`).  After EVERY later
     history `hist` of plain operations, batch operations, `Merge` runs and `Backup`s, leading to
     `s' = hrun s hist` with handle `db'`: every snapshot item still reads, through its captured
     position, exactly the value the key had at creation — although meanwhile `k` may have been
     overwritten or deleted, its file rotated away and merged. -/
-theorem C10_stable (s : St) (db : DB) (g : GDir) (hdb : s.db = some db) (hinv : Inv s db g)
+theorem C10_stable (s : St) (db : DB) (g : GDir) (hdb : s.db = some db) (hinv : SnapOK s db g)
     (hist : List HOp) :
     ∃ db', (hrun s hist).db = some db' ∧ db'.dir = db.dir ∧
       ∀ k p, (k, p) ∈ db.index →
@@ -111,7 +122,7 @@ theorem C10_stable (s : St) (db : DB) (g : GDir) (hdb : s.db = some db) (hinv : 
     snapshot was taken still exists and is its old content followed by whole appended frames — and
     the *older* files (id below the active id at snapshot time), which `getValueByPosition` reads
     after releasing `db.mu`, are byte-identical for ever. -/
-theorem C10_files_append_only (s : St) (db : DB) (g : GDir) (hdb : s.db = some db) (hinv : Inv s db g)
+theorem C10_files_append_only (s : St) (db : DB) (g : GDir) (hdb : s.db = some db) (hinv : SnapOK s db g)
     (hist : List HOp) :
     ∃ db', (hrun s hist).db = some db' ∧ db'.dir = db.dir ∧ db.activeId ≤ db'.activeId ∧
       ∀ id f, getFile (dirOf s db).data id = some f →
@@ -127,7 +138,7 @@ theorem C10_files_append_only (s : St) (db : DB) (g : GDir) (hdb : s.db = some d
 /-- **C10_fold_stable**.  A `Fold` (or any loop over `ListKeys` + reads through the snapshot) whose
     index snapshot was taken in state `s` and whose reads happen after the history sees exactly
     `fold s db`, the creation-time mapping. -/
-theorem C10_fold_stable (s : St) (db : DB) (g : GDir) (hdb : s.db = some db) (hinv : Inv s db g)
+theorem C10_fold_stable (s : St) (db : DB) (g : GDir) (hdb : s.db = some db) (hinv : SnapOK s db g)
     (hist : List HOp) :
     ∃ db', (hrun s hist).db = some db' ∧
       db.index.map (fun x => (x.1, valueAt (hrun s hist) db' x.2)) = fold s db ∧
@@ -147,14 +158,14 @@ theorem C10_fold_stable (s : St) (db : DB) (g : GDir) (hdb : s.db = some db) (hi
     exact ⟨v, e2, e1⟩
 
 /-- **C10_snapshot_transcript** (the final statement).  Create an iterator in a state satisfying
-    the invariant, then run ANY interleaving `evs` of iterator calls (`Rewind / Next / Seek`) and
+    `SnapOK` (e.g. the engine invariant), then run ANY interleaving `evs` of iterator calls (`Rewind / Next / Seek`) and
     database writes (plain, batch, `Merge`, `Backup`).  The whole transcript — `Valid`, `Key` and the `Value`
     read through the captured position in whatever state the database is in at that moment,
     observed before the first and after every event — equals the transcript of the abstract cursor
     over the *creation-time* mapping `fold s db` (which lists each key with `.val v`,
     `absGet s db k = some v`), on which writes have no effect.  Side condition: the iterator calls of
     the run form an admissible sequence (no backward `Seek`, as in `C10_cursor`). -/
-theorem C10_snapshot_transcript (s : St) (db : DB) (g : GDir) (hdb : s.db = some db) (hinv : Inv s db g)
+theorem C10_snapshot_transcript (s : St) (db : DB) (g : GDir) (hdb : s.db = some db) (hinv : SnapOK s db g)
     (pre : Key) (rev : Bool) (evs : List Ev)
     (hadm : (Abs.new rev pre db.index).admissible (callsOf evs) = true) :
     transcript s (iterNew db pre rev) evs = specTranscript (Abs.new rev pre (fold s db)) evs ∧
@@ -170,7 +181,7 @@ theorem C10_snapshot_transcript (s : St) (db : DB) (g : GDir) (hdb : s.db = some
     cases hg : Index.get db.index k with
     | none => rw [absGet_of_get_none hg] at hv; cases hv
     | some p =>
-      obtain ⟨v', e1, e2⟩ := absGet_of_get_some hinv hg
+      obtain ⟨r, _, _, e1, e2⟩ := hinv.resolves (Index.get_eq_some_mem hg)
       rw [e2] at hv
       cases hv
       unfold fold
@@ -181,7 +192,7 @@ theorem C10_snapshot_transcript (s : St) (db : DB) (g : GDir) (hdb : s.db = some
     whose `Value` reads the served position in the current (moving) database state, produces the
     transcript of the abstract cursor over the creation-time mapping. -/
 theorem C10_snapshot_transcript_sharded (s : St) (db : DB) (g : GDir) (hdb : s.db = some db)
-    (hinv : Inv s db g) (shardOf : Key → Nat) (n : Nat) (typ : IndexType)
+    (hinv : SnapOK s db g) (shardOf : Key → Nat) (n : Nat) (typ : IndexType)
     (hshard : ∀ x ∈ db.index, shardOf x.1 < n) (pre : Key) (rev : Bool) (evs : List Ev)
     (hadm : (Abs.new rev pre db.index).admissible (callsOf evs) = true) :
     transcriptD s (DBIter.new typ rev pre (shardsOf shardOf n db.index)) evs
@@ -194,7 +205,7 @@ theorem C10_snapshot_transcript_sharded (s : St) (db : DB) (g : GDir) (hdb : s.d
     call sequence, `Rewind` followed by the loop `for ; Valid(); Next()` — with every `Value` read
     after an arbitrary later history `hist` — yields exactly the creation-time pairs `(k, .val v)`
     whose key has the prefix, each once, in iteration order (strictly ordered). -/
-theorem C10_engine_complete_sorted (s : St) (db : DB) (g : GDir) (hdb : s.db = some db) (hinv : Inv s db g)
+theorem C10_engine_complete_sorted (s : St) (db : DB) (g : GDir) (hdb : s.db = some db) (hinv : SnapOK s db g)
     (pre : Key) (rev : Bool) (calls : List Call)
     (hadm : (Abs.new rev pre db.index).admissible calls = true) (fuel : Nat)
     (hfuel : ((iterOrder rev db.index).filter (fun x => ShardIter.hasPrefix pre x.1)).length ≤ fuel)
@@ -368,32 +379,49 @@ def nFiles (s : St) (dir : String) : Option (List Nat) := (s.world.get dir).map 
 
 /-! ### the hypotheses are met by that instance (proof level) -/
 
-theorem inv_put {s : St} (h : ∃ db g, s.db = some db ∧ Inv s db g) (k v : ByteArray)
-    (hk0 : 0 < k.size) (hk : k.size < 2 ^ 31) (hv : v.size < 2 ^ 31) :
-    ∃ db g, (put s k v).1.db = some db ∧ Inv (put s k v).1 db g := by
-  obtain ⟨db, g, hdb, hinv⟩ := h
-  obtain ⟨db', g', h1, h2, _⟩ := put_spec hinv hdb k v hk0 hk hv
-  exact ⟨db', g', h1, h2⟩
+/-- invariant of a history of plain `Put`s: the engine invariant, and every logged record is plain -/
+def PlainInv (s : St) : Prop := ∃ db g, s.db = some db ∧ Inv s db g ∧ ∀ x ∈ logOf g, x.1.batch = 0
 
-/-- the creation state of the example satisfies the invariant -/
-theorem exS_inv : ∃ db g, exS.db = some db ∧ Inv exS db g := by
-  have h0 : ∃ db g, (openDB St.init "d" exCfg).1.db = some db ∧ Inv (openDB St.init "d" exCfg).1 db g := by
+theorem inv_put {s : St} (h : PlainInv s) (k v : ByteArray)
+    (hk0 : 0 < k.size) (hk : k.size < 2 ^ 31) (hv : v.size < 2 ^ 31) : PlainInv (put s k v).1 := by
+  obtain ⟨db, g, hdb, hinv, hb⟩ := h
+  obtain ⟨db', g', h1, h2, _, _, _, pos, hlog⟩ := put_spec hinv hdb k v hk0 hk hv
+  refine ⟨db', g', h1, h2, fun x hx => ?_⟩
+  rw [hlog] at hx
+  rcases List.mem_append.mp hx with hx | hx
+  · exact hb x hx
+  · simp only [List.mem_singleton] at hx
+    rw [hx]
+
+theorem sz2 (k : String) (hk : k.toUTF8.size = 2) : 0 < (kb k).size ∧ (kb k).size < 2 ^ 31 := by
+  unfold kb; rw [hk]; exact ⟨by decide, by decide⟩
+
+theorem sz1 (v : String) (hv : v.toUTF8.size = 1) : (kb v).size < 2 ^ 31 := by
+  unfold kb; rw [hv]; decide
+
+theorem exS_plain : PlainInv exS := by
+  have h0 : PlainInv (openDB St.init "d" exCfg).1 := by
     rw [openDB_fresh "d" exCfg (by decide)]
-    exact ⟨_, _, rfl, Inv_fresh "d" exCfg⟩
-  have sz2 : ∀ k : String, k.toUTF8.size = 2 → 0 < (kb k).size ∧ (kb k).size < 2 ^ 31 := by
-    intro k hk; unfold kb; rw [hk]; exact ⟨by decide, by decide⟩
-  have sz1 : ∀ v : String, v.toUTF8.size = 1 → (kb v).size < 2 ^ 31 := by
-    intro v hv; unfold kb; rw [hv]; decide
+    exact ⟨_, _, rfl, Inv_fresh "d" exCfg, fun x hx => by simp [logOf] at hx⟩
   have h1 := inv_put h0 (kb "a1") (kb "1") (sz2 "a1" (by decide)).1 (sz2 "a1" (by decide)).2 (sz1 "1" (by decide))
   have h2 := inv_put h1 (kb "a2") (kb "2") (sz2 "a2" (by decide)).1 (sz2 "a2" (by decide)).2 (sz1 "2" (by decide))
   have h3 := inv_put h2 (kb "b1") (kb "3") (sz2 "b1" (by decide)).1 (sz2 "b1" (by decide)).2 (sz1 "3" (by decide))
   exact inv_put h3 (kb "c1") (kb "4") (sz2 "c1" (by decide)).1 (sz2 "c1" (by decide)).2 (sz1 "4" (by decide))
 
-/-- `C10_stable`, `C10_fold_stable` applied to the example: every hypothesis is discharged -/
+/-- the creation state of the example satisfies the invariant -/
+theorem exS_inv : ∃ db g, exS.db = some db ∧ Inv exS db g := by
+  obtain ⟨db, g, h1, h2, _⟩ := exS_plain
+  exact ⟨db, g, h1, h2⟩
+
+theorem exS_snap : ∃ db g, exS.db = some db ∧ SnapOK exS db g := by
+  obtain ⟨db, g, hdb, hinv⟩ := exS_inv
+  exact ⟨db, g, hdb, SnapOK.of_inv hinv⟩
+
+/-- `C10_stable` applied to the example: every hypothesis is discharged -/
 example : ∃ db db', exS.db = some db ∧ (hrun exS exHist).db = some db' ∧
     ∀ k p, (k, p) ∈ db.index →
       ∃ v, absGet exS db k = some v ∧ valueAt exS db p = .val v ∧ valueAt (hrun exS exHist) db' p = .val v := by
-  obtain ⟨db, g, hdb, hinv⟩ := exS_inv
+  obtain ⟨db, g, hdb, hinv⟩ := exS_snap
   obtain ⟨db', h1, _, h2⟩ := C10_stable exS db g hdb hinv exHist
   exact ⟨db, db', hdb, h1, h2⟩
 
@@ -401,7 +429,7 @@ example : ∃ db db', exS.db = some db ∧ (hrun exS exHist).db = some db' ∧
     hypothesis is discharged by the snapshot-independent criterion `seeksAtStart` -/
 example : ∃ db, exS.db = some db ∧ ∀ (pre : Key) (rev : Bool),
     transcript exS (iterNew db pre rev) exEvs = specTranscript (Abs.new rev pre (fold exS db)) exEvs := by
-  obtain ⟨db, g, hdb, hinv⟩ := exS_inv
+  obtain ⟨db, g, hdb, hinv⟩ := exS_snap
   refine ⟨db, hdb, fun pre rev => ?_⟩
   exact (C10_snapshot_transcript exS db g hdb hinv pre rev exEvs
     (admissible_of_seeksAtStart _ _ true (fun _ => rfl) (by decide))).1
@@ -410,7 +438,7 @@ example : ∃ db, exS.db = some db ∧ ∀ (pre : Key) (rev : Bool),
 example : ∃ db, exS.db = some db ∧ ∀ (pre : Key) (rev : Bool) (typ : IndexType),
     (iterNew db pre rev).trace (callsOf exEvs)
       = (DBIter.new typ rev pre (shardsOf (fun _ => 0) 1 db.index)).trace (callsOf exEvs) := by
-  obtain ⟨db, g, hdb, hinv⟩ := exS_inv
+  obtain ⟨db, g, hdb, hinv⟩ := exS_snap
   refine ⟨db, hdb, fun pre rev typ => ?_⟩
   exact (C10_engine_cursor db pre rev hinv.sorted (callsOf exEvs)
     (admissible_of_seeksAtStart _ _ true (fun _ => rfl) (by decide))).2 (fun _ => 0) 1 typ
@@ -420,7 +448,7 @@ example : ∃ db, exS.db = some db ∧ ∀ (pre : Key) (rev : Bool) (typ : Index
 example : ∃ db, exS.db = some db ∧ ((∀ x ∈ db.index, C10.exShard x.1 < 4) → ∀ (typ : IndexType) (pre : Key) (rev : Bool),
     transcriptD exS (DBIter.new typ rev pre (shardsOf C10.exShard 4 db.index)) exEvs
       = specTranscript (Abs.new rev pre (fold exS db)) exEvs) := by
-  obtain ⟨db, g, hdb, hinv⟩ := exS_inv
+  obtain ⟨db, g, hdb, hinv⟩ := exS_snap
   refine ⟨db, hdb, fun hshard typ pre rev => ?_⟩
   exact C10_snapshot_transcript_sharded exS db g hdb hinv C10.exShard 4 typ hshard pre rev exEvs
     (admissible_of_seeksAtStart _ _ true (fun _ => rfl) (by decide))
@@ -432,7 +460,7 @@ example : ∃ db db', exS.db = some db ∧ (hrun exS exHist).db = some db' ∧ (
         (fun x => (x.1, x.2.map (valueAt (hrun exS exHist) db')))
       = ((iterOrder false (fold exS db)).filter (fun x => ShardIter.hasPrefix (kb "") x.1)).map
           (fun x => (some x.1, some x.2))) := by
-  obtain ⟨db, g, hdb, hinv⟩ := exS_inv
+  obtain ⟨db, g, hdb, hinv⟩ := exS_snap
   by_cases hl : db.index.length ≤ 4
   · obtain ⟨db', h1, h2, _⟩ := C10_engine_complete_sorted exS db g hdb hinv (kb "") false [.next, .next]
       (admissible_of_seeksAtStart _ _ true (fun _ => rfl) (by decide)) 4
@@ -441,6 +469,91 @@ example : ∃ db db', exS.db = some db ∧ (hrun exS exHist).db = some db' ∧ (
   · obtain ⟨db', h1, _⟩ := C10_stable exS db g hdb hinv exHist
     exact ⟨db, db', hdb, h1, fun h => absurd h hl⟩
 #guard (match exS.db with | some db => db.index.length ≤ 4 | none => false)
+
+/-- `C10_engine_listkeys`, `C10_engine_complete`, `C10_fold_stable`, `C10_files_append_only` applied
+    to the example -/
+example : ∃ db, exS.db = some db ∧
+    (∀ typ, ((IndexIterator.create typ false (shardsOf (fun _ => 0) 1 db.index)).rewind.collect db.index.length).map (·.1)
+      = (listKeys db).map some) ∧
+    (listKeys db).Pairwise (fun a b => keyLt a b = true) ∧
+    (∃ db', (hrun exS exHist).db = some db' ∧
+      db.index.map (fun x => (x.1, valueAt (hrun exS exHist) db' x.2)) = fold exS db) ∧
+    (∃ db', (hrun exS exHist).db = some db' ∧ db.activeId ≤ db'.activeId) := by
+  obtain ⟨db, g, hdb, hinv⟩ := exS_snap
+  refine ⟨db, hdb, fun typ => ?_, (C10_engine_complete exS db g hinv).1, ?_, ?_⟩
+  · exact (C10_engine_listkeys exS db hinv.sorted (fun _ => 0) 1 typ (fun _ _ => Nat.zero_lt_one) _
+      (Nat.le_refl _)).1
+  · obtain ⟨db', h1, h2, _⟩ := C10_fold_stable exS db g hdb hinv exHist
+    exact ⟨db', h1, h2⟩
+  · obtain ⟨db', h1, _, h2, _⟩ := C10_files_append_only exS db g hdb hinv exHist
+    exact ⟨db', h1, h2⟩
+-- `ListKeys` / `Fold` of the engine against the loop over the sharded iterator (4 shards)
+#guard (match exS.db with
+  | some db =>
+    ((IndexIterator.create .btree false (shardsOf C10.exShard 4 db.index)).rewind.collect 4).map (·.1)
+      == (listKeys db).map some
+  | none => false)
+-- the older file 0 is byte-identical after the history, the then-active file 1 too (it was full)
+#guard (match exS.db, (hrun exS exHist).db with
+  | some db, some db' =>
+    [0, 1].all (fun id => ((getFile (dirOf exS db).data id).map (·.bytes.data.toList))
+      == ((getFile (dirOf (hrun exS exHist) db').data id).map (·.bytes.data.toList)))
+    && db.activeId == 1 && db'.activeId == 6
+  | _, _ => false)
+
+/-! ### a snapshot taken in the middle of a batch
+
+`SnapOK` also holds while a batch is open.  With the 70-byte limit every `Batch.Put` first flushes
+what is staged (`flushStagedAndUpdateFile`), so in `exB` the record `c1=Y` is already on disk and in
+the live index — uncommitted — while `a1=Z` is still staged.  An iterator created now serves
+`c1=Y` (what `Get` answers at that moment), and keeps doing so after `Commit`, later writes and
+a `Merge`. -/
+
+def exB : St := (bput (bput (bnew exS false 7).1 (kb "c1") (kb "Y")).1 (kb "a1") (kb "Z")).1
+
+theorem exB_snap : ∃ db g, exB.db = some db ∧ SnapOK exB db g ∧ db.batch.isSome = true := by
+  obtain ⟨db, g, hdb, hinv, hb0⟩ := exS_plain
+  have hx0 := bnew_specX hinv hdb false 7 (by decide) (by decide)
+    (fresh_of_unused 7 (logOf g) (fun x hx => by rw [hb0 x hx]; decide))
+  obtain ⟨_, db1, g1, b1, n1, hx1, _, _⟩ := bput_specX hx0 (kb "c1") (kb "Y")
+    (sz2 "c1" (by decide)).1 (sz2 "c1" (by decide)).2 (sz1 "Y" (by decide))
+  obtain ⟨_, db2, g2, b2, n2, hx2, _, _⟩ := bput_specX hx1 (kb "a1") (kb "Z")
+    (sz2 "a1" (by decide)).1 (sz2 "a1" (by decide)).2 (sz1 "Z" (by decide))
+  exact ⟨db2, g2, hx2.open_, SnapOK.of_batch hx2.core, by rw [hx2.batch]; rfl⟩
+
+def exHistB : List HOp :=
+  [.op (.bdel (kb "a2")), .op .bcommit, .op .bdrop, .op (.put (kb "c1") (kb "W")), .merge [0, 1, 2, 3, 4],
+   .op (.del (kb "b1"))]
+
+def exEvsB : List Ev :=
+  [.call .next, .write (.op (.bdel (kb "a2"))), .call .next, .write (.op .bcommit), .write (.op .bdrop),
+   .call .next, .write (.op (.put (kb "c1") (kb "W"))), .write (.merge [0, 1, 2, 3, 4]),
+   .write (.op (.del (kb "b1"))), .call .rewind, .call (.seek (kb "b")), .call .next, .call .next]
+
+example : ∃ db db', exB.db = some db ∧ (hrun exB exHistB).db = some db' ∧
+    (∀ k p, (k, p) ∈ db.index →
+      ∃ v, absGet exB db k = some v ∧ valueAt (hrun exB exHistB) db' p = .val v) ∧
+    ∀ (pre : Key) (rev : Bool),
+      transcript exB (iterNew db pre rev) exEvsB = specTranscript (Abs.new rev pre (fold exB db)) exEvsB := by
+  obtain ⟨db, g, hdb, hsnap, _⟩ := exB_snap
+  obtain ⟨db', h1, _, h2⟩ := C10_stable exB db g hdb hsnap exHistB
+  refine ⟨db, db', hdb, h1, fun k p hm => ?_, fun pre rev => ?_⟩
+  · obtain ⟨v, e1, _, e3⟩ := h2 k p hm
+    exact ⟨v, e1, e3⟩
+  · exact (C10_snapshot_transcript exB db g hdb hsnap pre rev exEvsB
+      (admissible_of_seeksAtStart _ _ true (fun _ => rfl) (by decide))).1
+
+-- the mapping the iterator was created on: `c1=Y` is flushed but uncommitted, `a1=Z` only staged
+#guard (match exB.db with
+  | some db => (fold exB db).map (fun x => (String.fromUTF8! x.1, showRes x.2)) | none => [])
+  == [("a1", "=1"), ("a2", "=2"), ("b1", "=3"), ("c1", "=Y")]
+#guard (match exB.db with | some db => db.batch.isSome | none => false)
+#guard ["a1", "a2", "b1", "c1"].map (getStr (hrun exB exHistB)) == ["=Z", "notfound", "notfound", "=W"]
+#guard (match exB.db with
+  | some db => (transcript exB (iterNew db (kb "") false) exEvsB).map showObs
+  | none => []) ==
+  [cell "a1" "1", cell "a2" "2", cell "a2" "2", cell "b1" "3", cell "b1" "3", cell "b1" "3", cell "c1" "Y",
+   cell "c1" "Y", cell "c1" "Y", cell "c1" "Y", cell "a1" "1", cell "b1" "3", cell "c1" "Y", done]
 
 /-! ## 4. why the call sequences are restricted to admissible ones — and a model/Go difference
 
